@@ -21,6 +21,7 @@ AlgOf(r) == LET k == r.consumer  cs == r.c IN
   ELSE IF k \in {"limited", "fileunnamed"} THEN AlgLimited(cs, r.limit)
   ELSE AlgCopyFixed(cs)
 
+IsConc(r) == "concurrent" \in DOMAIN r /\ r.concurrent
 Checks(r) ==
   LET cs == r.c  k == r.consumer IN
   IF IsReader(k) THEN
@@ -32,6 +33,10 @@ Checks(r) ==
      <<"FailedPushLeavesNoBlobFile", ~r.ok => r.newblobs = 0>>,
      <<"VisibleMatchesDescriptor", r.fetchok => (~MustFail(cs) /\ r.bytes = SubSeq(Stream(cs), 1, cs.size))>>,
      <<"ExistsMeansFetchable", r.exists => r.fetchok>>,
+     \* the same through the plain descriptor (no title), as a manifest's layer entry names the content
+     <<"FailedPushInvisiblePlain", (~r.ok /\ ~IsConc(r)) => (~r.existsp /\ ~r.fetchpok)>>,
+     <<"VisibleMatchesDescriptorPlain", r.fetchpok => (~MustFail(cs) /\ r.bytesp = SubSeq(Stream(cs), 1, cs.size))>>,
+     <<"ConcurrentNoHang", ~("hang" \in DOMAIN r /\ r.hang)>>,
      <<"BlobFilesComplete", r.badblobfiles = 0>>}
 
 Sanity(r) == Good(r.c) => r.ok          \* not a verdict: guards against vacuity
@@ -43,7 +48,7 @@ Step ==
   /\ done' = FALSE
   /\ viol' = viol \cup {[t |-> Rec.t, i |-> Rec.i, inv |-> k[1]] : k \in {k \in Checks(Rec) : ~k[2]}}
                \cup (IF Sanity(Rec) THEN {} ELSE {[t |-> Rec.t, i |-> Rec.i, inv |-> "GoodAccepted"]})
-  /\ nonconf' = IF Rec.ok = (AlgOf(Rec).res = "ok") THEN nonconf
+  /\ nonconf' = IF IsConc(Rec) \/ Rec.ok = (AlgOf(Rec).res = "ok") THEN nonconf
                 ELSE nonconf \cup {[t |-> Rec.t, i |-> Rec.i, inv |-> "L2"]}
 Finish ==
   /\ l = Len(Trace) + 1 /\ ~done
